@@ -1,6 +1,7 @@
 package check
 
 import (
+	"go/types"
 	"strings"
 
 	"golang.org/x/tools/go/ssa"
@@ -53,6 +54,27 @@ func runC04(c *Ctx) {
 		} else {
 			r.Bad("C04.immutable", construct, c.P.InstrPos(a.Instr), "field of a possibly published pipeline structure is written in place; Send traverses these lists without any lock")
 		}
+	}
+	// ... nor is a published structure replaced wholesale through its pointer (*p = v)
+	for _, f := range c.P.FuncsIn(PkgRoot) {
+		eachInstr(f, func(in ssa.Instruction) {
+			st, ok := in.(*ssa.Store)
+			if !ok {
+				return
+			}
+			pt, ok := st.Addr.Type().Underlying().(*types.Pointer)
+			if !ok {
+				return
+			}
+			nt, ok := pt.Elem().(*types.Named)
+			if !ok || nt.Obj().Pkg() == nil || nt.Obj().Pkg().Path() != PkgRoot || (nt.Obj().Name() != "registeredPipeline" && nt.Obj().Name() != "linkedNode") {
+				return
+			}
+			if _, fresh := st.Addr.(*ssa.Alloc); fresh {
+				return // initialisation of an object allocated by this call
+			}
+			r.Bad("C04.immutable", "eventlogger."+nt.Obj().Name()+":overwritten-in-place@"+c.P.ShortFn(f), c.P.InstrPos(in), "a "+nt.Obj().Name()+" that may already be published is overwritten in place through its pointer: Send and Reopen read these structures without any lock (they only synchronise through the sync.Map), so the write races with them and a reader can see a half-updated pipeline")
+		})
 	}
 	r.Floor("C04.immutable", 4)
 
